@@ -283,7 +283,12 @@ func ListToFunc(s *Scope, list List, depth int) Object {
 	}
 	switch ta := list[0].(type) {
 	case Symbol:
-		return NewFunc(string(ta), list[1:])
+		// The list may be data, such as a quoted form given to eval, so the
+		// function must not share the list. Evaluating the function
+		// replaces list arguments with compiled functions.
+		args := make(List, len(list)-1)
+		copy(args, list[1:])
+		return NewFunc(string(ta), args)
 	case List:
 		if 1 < len(ta) {
 			if sym, ok := ta[0].(Symbol); ok {
